@@ -166,6 +166,31 @@ def run(ctx, res):
                                              case=dict(prefixes=[allids[i], p], clock=seq), detail=i))
                 allids[i] = p
 
+    # ... nor under clocks of their own (two devices, or one process at different times): prefixes of which one extends
+    # the other by "_<digits>", and no prefix against a numeric one - every pair of clocks up to length 3
+    n_pp = 0
+    for pa, pb, d in ((None, "7", 7), ("a", "a_5", 5), ("dev", "dev_1", 1), ("u", "u_3", 3), (None, "3", 3), ("dev_1", "dev_1_2", 2)):
+        vals = sorted({1, 2, d})
+        clocks = [list(c) for n in (1, 2, 3) for c in itertools.product(vals, repeat=n)]
+        ids_a = [impl_ids(pa, c) for c in clocks]
+        ids_b = [impl_ids(pb, c) for c in clocks]
+        hit = None
+        for ca, ia in zip(clocks, ids_a):
+            sa = set(ia)
+            for cb, ib in zip(clocks, ids_b):
+                n_pp += 1
+                if sa & set(ib):
+                    hit = (ca, cb, sorted(sa & set(ib)))
+                    break
+            if hit:
+                break
+        res.note_case(("prefix-pair", pa, pb), True)
+        if hit:
+            res.failures.append(dict(signature="prefix-collision", case=dict(prefixes=[pa, pb], clocks=[hit[0], hit[1]]), detail=hit[2],
+                                     what="generators with the different prefixes %r and %r gave the same identifier %r (clock seconds "
+                                          "%r and %r)" % (pa, pb, hit[2][0], hit[0], hit[1])))
+    res.extra["prefix_pair_clock_pairs"] = n_pp
+
     # real threads (sanity only; the theorem covers the lock's serialisation order)
     import bobocep.cep.gen.event_id as m
     g = m.BoboGenEventIDUnique("t")
@@ -545,6 +570,15 @@ def replay(obj):
         bad = any(len(set(x for u in r for x in r[u][k])) != sum(len(r[u][k]) for u in r) for k in ("run_ids", "event_ids"))
         print("identifiers of different devices coincide" if bad else "identifiers of different devices are distinct")
         return 1 if bad else 0
+    if "prefixes" in case:
+        pa, pb = case["prefixes"]
+        ca, cb = case["clocks"] if "clocks" in case else (case["clock"], case["clock"])
+        ia, ib = impl_ids(pa, ca), impl_ids(pb, cb)
+        print("generator with prefix %r, clock seconds %r: %s" % (pa, ca, ia))
+        print("generator with prefix %r, clock seconds %r: %s" % (pb, cb, ib))
+        both = sorted(set(ia) & set(ib))
+        print("the same identifier from both: %r" % both if both else "no identifier in common")
+        return 1 if both else 0
     if "bursts" in case:
         ids = impl_ids(case.get("urn"), expand(case["bursts"]))
         dup = len(set(ids)) != len(ids)
